@@ -58,12 +58,16 @@ def tree_fingerprint(src=None):
     for root, dirs, files in os.walk(base):
         dirs[:] = sorted(d for d in dirs if d != "__pycache__")
         for f in sorted(files):
-            if f.endswith((".pyc", ".pyo")):
+            if f.endswith((".pyc", ".pyo", "-wal", "-shm", "-journal")):
                 continue
             p = os.path.join(root, f)
+            try:
+                with open(p, "rb") as fh:
+                    data = fh.read()
+            except OSError:
+                continue
             h.update(os.path.relpath(p, base).encode())
-            with open(p, "rb") as fh:
-                h.update(hashlib.sha256(fh.read()).digest())
+            h.update(hashlib.sha256(data).digest())
     return h.hexdigest()[:16]
 
 
@@ -80,6 +84,12 @@ def boot_pygaps():
         sys.path.insert(0, REPO_SRC)
     from sim.seams import sqlseam
     sqlseam.install()
+    # first fence: the packaged default.db is never opened, not even by the import-time load_data(); the seam
+    # redirects that one path to a scratch copy (a tree that e.g. switches on WAL would otherwise rewrite the file)
+    packaged = os.path.join(REPO_SRC, "pygaps", "data", "default.db")
+    fence0 = os.path.join(scratch_root(), "fence-import-default.db")
+    shutil.copyfile(packaged, fence0)
+    sqlseam.REDIRECT[os.path.realpath(packaged)] = fence0
     import logging
     import warnings
     warnings.filterwarnings("ignore")
